@@ -1,7 +1,7 @@
 (* C15, session 4 — proofs about Model/Parsers2.v: the include chain on a file tree (cycles through any
    spelling diverge; without a cycle one unit of fuel per file suffices; the repair ends on every tree),
    the guard theorems of the newly covered index / slice sites, and work bounds. *)
-From Coq Require Import Lia Relations.Relation_Operators.
+From Coq Require Import Lia ZifyN ZifyNat Relations.Relation_Operators.
 From Apko Require Import Base.Prelude Base.C16Lib Model.Formats Model.Parsers Model.Parsers2 Spec.ParsersSpec
   Proofs.ParsersProofs Proofs.ReadersProofs.
 Open Scope string_scope. Open Scope list_scope.
@@ -500,3 +500,40 @@ Proof.
   destruct (alookup name idx) as [e|]; [|exact H].
   destruct (tn_kind e =? 1)%Z; [apply (IH _ _ _ H N); lia|]. destruct (tn_kind e =? 2)%Z; [apply (IH _ _ _ H N); lia|exact H].
 Qed.
+
+(* ======================================================================================== *)
+(* 6. the loops over tar entries: at most |stream| / 512 + 1 turns                              *)
+Lemma div_shrink n n' : (n' + 512 <= n)%N -> (N.to_nat (n' / 512) < N.to_nat (n / 512))%nat.
+Proof.
+  intro K. assert (H : (n' / 512 < n / 512)%N).
+  { apply N.div_lt_upper_bound; [lia|]. assert (E : (n = 512 * (n / 512) + n mod 512)%N) by (apply N.div_mod; lia).
+    pose proof (N.mod_lt n 512). lia. }
+  lia.
+Qed.
+Lemma tar_loop_returns next body le : consumes next ->
+  forall fuel n turns, (N.to_nat (n / tar_block) < fuel)%nat -> Returns (tar_loop next body le true fuel n turns).
+Proof.
+  intro C. induction fuel as [|f IH]; intros n turns L; [exfalso; exact (Nat.nlt_0_r _ L)|].
+  cbn [tar_loop]. destruct (next n) as [n'| |] eqn:E.
+  - destruct (body n'); [|apply returns_err]. apply IH. pose proof (div_shrink n n' (C n n' E)) as K. unfold tar_block in *. lia.
+  - rewrite Bool.orb_true_r. apply returns_ok.
+  - apply returns_err.
+Qed.
+Lemma tar_loop_turns next body le : consumes next ->
+  forall fuel n turns k, tar_loop next body le true fuel n turns = Ok k -> (k <= turns + S (N.to_nat (n / tar_block)))%nat.
+Proof.
+  intro C. induction fuel as [|f IH]; intros n turns k H; [discriminate|].
+  cbn [tar_loop] in H. destruct (next n) as [n'| |] eqn:E.
+  - destruct (body n'); [|discriminate]. apply IH in H. pose proof (div_shrink n n' (C n n' E)) as K. unfold tar_block in *. lia.
+  - rewrite Bool.orb_true_r in H. inversion H. set (q := N.to_nat (n / tar_block)). clearbody q. lia.
+  - discriminate.
+Qed.
+Lemma tar_sites_all_leave : forall site, In site tar_next_loops -> snd (snd site) = true.
+Proof. intros site I. repeat (destruct I as [<-|I]; [reflexivity|]). destruct I. Qed.
+Lemma site_loop_returns site next body n : In site tar_next_loops -> consumes next -> Returns (site_loop site next body n).
+Proof.
+  intros I C. unfold site_loop. rewrite (tar_sites_all_leave site I). apply tar_loop_returns; [exact C|]. unfold tar_fuel. apply Nat.lt_succ_diag_r.
+Qed.
+(* a loop that does not leave on an error turns forever on a reader that keeps handing it the error *)
+Lemma tar_loop_ignoring_errors_diverges body le : forall fuel n turns, tar_loop (fun _ => TErr) body le false fuel n turns = OutOfFuel.
+Proof. induction fuel as [|f IH]; intros; [reflexivity|]. cbn [tar_loop]. apply IH. Qed.
